@@ -35,7 +35,7 @@ def run(ctx):
             diverged += 1
     ctx.samples.append(dict(schedule=srvlib.sched_of(beh[0]), reqs=beh[0]["reqs"], final=beh[0]["final"]))
     # un-gated sequential and concurrent mixes, scrapes during and after load; trace validated by TLC
-    summ, rej, nev = srvlib.load_and_validate(ctx, allk, 8 if ctx.quick else 60, 6 if ctx.quick else 16, scrapes=4)
+    summ, rej, nev = srvlib.load_and_validate(ctx, allk + ["huge"], 8 if ctx.quick else 60, 6 if ctx.quick else 16, scrapes=4)
     for s in summ:
         if not s.get("metrics_ok"):
             ctx.violation("after load round %d the metrics endpoint reports %s, the responses actually sent are %s" % (s["round"], json.dumps(s["metrics_got"]), json.dumps(s["metrics_want"])),
